@@ -560,6 +560,9 @@ fn numeric_oracle(tok: &Token, slice: &[u8]) -> Result<(), String> {
             if got != v as i128 {
                 return Err(format!("int {} denotes {} but the token holds {}", txt, v, got));
             }
+            if k == "IntU32" && v > u32::MAX as u64 {
+                return Err(format!("int {} does not fit 32 bits but was accepted with suffix u", txt));
+            }
             Ok(())
         }
         (RefNum::Float { kind, bits64 }, t) => {
@@ -681,8 +684,16 @@ pub fn run_lex(text: &str, fl: &Flags, hist: &mut Hist) -> (String, String) {
                         _ => c.is_ascii_digit(),
                     })
                     .collect();
-                if Big::from_digits(&ds, base).to_u64().is_some() {
-                    fails.push(format!("integer {} fits in 64 bits but was rejected", String::from_utf8_lossy(&ds)));
+                // what follows the digits: `l`/`L` not followed by `u`/`U` is the signed 64-bit suffix
+                let after = &t[dstart + ds.len()..];
+                let signed = matches!(after.first(), Some(b'l') | Some(b'L')) && !matches!(after.get(1), Some(b'u') | Some(b'U'));
+                // `u`/`U` not followed by `l`/`L` is the unsigned 32-bit suffix
+                let unsigned32 = matches!(after.first(), Some(b'u') | Some(b'U')) && !matches!(after.get(1), Some(b'l') | Some(b'L'));
+                match Big::from_digits(&ds, base).to_u64() {
+                    Some(v) if !(signed && v > i64::MAX as u64) && !(unsigned32 && v > u32::MAX as u64) => {
+                        fails.push(format!("integer {} fits its type but was rejected", String::from_utf8_lossy(&ds)));
+                    }
+                    _ => {}
                 }
                 if *off != pos + dstart as u32 {
                     fails.push(format!("too-large diagnostic at {} expected {}", off, pos + dstart as u32));
@@ -1037,7 +1048,11 @@ pub fn run_emit(ty: &str, lit: &str) -> (String, String) {
             // "or is rejected if it does not fit in 64 bits": a rejection for size must be justified
             let orc = if msg.contains("integer literal is too large") {
                 match ref_numeric(lit.as_bytes()) {
-                    RefNum::Int { value, .. } if value.to_u64().is_some() => {
+                    RefNum::Int { value, kind }
+                        if value.to_u64().is_some_and(|v| {
+                            !(kind == "IntS64" && v > i64::MAX as u64) && !(kind == "IntU32" && v > u32::MAX as u64)
+                        }) =>
+                    {
                         format!("FAIL:emit integer literal {} fits in 64 bits but was rejected as too large", lit)
                     }
                     _ => "ok".to_string(),
